@@ -248,7 +248,7 @@ pub fn run_check(prop: &str, tier: &str, base_seed: u64, verif_dir: &str) -> i32
             "observations": sum.observations,
             "known_findings_seen": known_lines,
             "determinism_selftest": det,
-            "crash_point_enumeration": {"exhaustive_per_history": true, "model": "process kill just before the k-th mutating VFS call (create/write/truncate/sync/delete); page cache survives", "histories": enumerated},
+            "crash_point_enumeration": if prop == "C18" { serde_json::json!({"exhaustive_per_history": true, "model": "process kill just before the k-th mutating VFS call (create/write/truncate/sync/delete); page cache survives", "histories": enumerated.iter().take(40).collect::<Vec<_>>(), "histories_total": enumerated.len()}) } else { serde_json::Value::Null },
             "violations_of_other_properties_seen_and_ignored_here": other_props,
             "components": real_stub(),
             "workers": w,
